@@ -125,6 +125,28 @@ def _run_spec(ctx, rep, spec, model, orders, real_pool=False, only=None):
                         idxs.append(len(reqs))
                         reqs.append({"op": "scan", "name": k, "field": fidx[0]})
                     pend.append((case, [oracle.bits(a).hex() for a in got_list], idxs))
+        # history on ONE stream object: a second iteration started (and run to its end) while a first one is in progress,
+        # then the first one resumed - each of the two must yield every box exactly once
+        if only is None and nb >= 2:
+            case = {"spec": spec, "iter": True, "level": lv, "nested": True}
+            rep.case({"s": spec, "nested": 1, "l": lv}, nontrivial=True); rep.count("two-iterations-of-one-stream-interleaved")
+            want0 = sorted(key(truth[(lv, b)][..., 0]) for b in range(nb))
+            try:
+                with alarm(120), quiet(), pools.controlled():
+                    st = pck[0][lv]
+                    it1 = iter(st)
+                    first = [next(it1)]
+                    second = list(st)
+                    first += list(it1)
+                if sorted(key(a) for a in first) != want0 or sorted(key(a) for a in second) != want0:
+                    rep.fail(f"two interleaved iterations of one stream object yielded {len(first)} and {len(second)} boxes, not the "
+                             f"{nb} stored boxes each once", case)
+                else:
+                    rep.agree()
+            except CaseTimeout:
+                rep.fail("interleaved iterations of one stream object did not stop within 120 s", case)
+            except Exception as e:
+                rep.fail(f"interleaved iterations of one stream object raised {type(e).__name__}: {e}", case)
         # on-demand iterator keeps the requested order
         for bsel in selectors.box_selectors(ctx.rng, nb):
             if only is not None:
